@@ -726,6 +726,9 @@ def c15(req, ra, ctr):
         b = engine.proj_params(rp) if rp[0] == 'ok' else tuple(rp[:2])
         if a != b:
             fails.append('downgrade-differs: %s gives %s with upgraded and %s with plain inputs' % (engine.line(req), a, b))
+        if rp[0] == 'ok' and rp[6]:
+            fails.append('downgrade-malformed: %s with plain inputs returns a result with flags %s (every result is an UpgradedSignature with a sources map that has +depths)' % (
+                engine.line(req), rp[6]))
         if not any(issubclass(x.category, DeprecationWarning) for x in w) and ds and any(d['params'] for d in ds):
             fails.append('downgrade-no-warning: %s emitted no DeprecationWarning for plain inputs' % engine.line(req))
     return fails
